@@ -87,6 +87,13 @@ def body_process(case, rec):
         def go(tag, hashseed, cwd_mode):
             outd = d / f"out_{tag}"
             outd.mkdir()
+            if case.get("fasta") and tag != "base" and case.get("stale_between"):
+                # the index files beside the FASTA are older than it when this run starts (warned about and rebuilt)
+                mt = src.stat().st_mtime_ns
+                for sfx in (".fai", ".agp"):
+                    f = Path(str(src) + sfx)
+                    if f.exists():
+                        os.utime(f, ns=(mt - 10**10, mt - 10**10))
             if cwd_mode == "abs":
                 cwd, a, p, o = "/", src, mp, outd / f"x.1.{ext}"
             elif cwd_mode == "outdir":
@@ -135,6 +142,17 @@ def body_inprocess(case, rec):
             return
         if not (fai.exists() and agp.exists()):
             raise Violation("no index cache written beside the FASTA")
+        # a later run that writes no log file (in the same process) must leave this run's log alone
+        (d / "A" / "out_log2").mkdir(exist_ok=True)
+        remap.run_cli_inprocess(["-a", src, "-p", mp, "-o", d / "A" / "out_log2" / "x.1.fa", "-c", prefix], keep_logging_state=True)
+        cold_log = (d / "A" / "out_log2" / "x.1.log")
+        cold_log_bytes = cold_log.read_bytes() if cold_log.exists() else None
+        (d / "A" / "out_nolog").mkdir(exist_ok=True)
+        r_nolog = remap.run_cli_inprocess(["-a", src, "-p", mp, "-o", d / "A" / "out_nolog" / "x.1.fa", "-c", prefix, "--no-write-log"])
+        if r_nolog.exit_code != 0:
+            raise Violation(f"run with --no-write-log failed with exit {r_nolog.exit_code}, the same run with a log succeeded")
+        if cold_log_bytes is not None and cold_log.read_bytes() != cold_log_bytes:
+            raise Violation("a later run with --no-write-log in the same process changed the log file of the earlier run")
         steps = [("warm", None), ("warm", None)]  # the second one re-runs into the directory the first one filled
         steps += [(f"buf{b}", b) for b in case["buffers"]]
         for tag, buf in steps:
@@ -417,6 +435,12 @@ def process_cases(draw):
     return c
 
 
+def _with_stale(c, k):
+    if k == 0:
+        c["stale_between"] = True
+    return c
+
+
 @st.composite
 def inprocess_cases(draw):
     c = draw(tagged_fasta_case())
@@ -431,7 +455,7 @@ def inprocess_cases(draw):
 
 
 SUBS = [
-    Sub("process", kind="hyp", strategy=process_cases, body=body_process, shrink=False,
+    Sub("process", kind="hyp", strategy=lambda: st.builds(_with_stale, process_cases(), st.integers(0, 2)), body=body_process, shrink=False,
         budget={"quick": 96, "thorough": 1500}, desc="PYTHONHASHSEED x cwd / relative-absolute arguments (subprocess)"),
     Sub("inprocess", kind="hyp", strategy=inprocess_cases, body=body_inprocess, shrink=False,
         budget={"quick": 160, "thorough": 3000}, desc="cache cold / warm / stale, stream buffer, interleaved invocations in one process"),
